@@ -15,7 +15,7 @@ import (
 type Finding struct {
 	Property string   `json:"property"`
 	Rule     string   `json:"rule"`
-	Key      string   `json:"key"` // <prop>/<rule>/<construct>, never a line number
+	Key      string   `json:"key"`  // <prop>/<rule>/<construct>, never a line number
 	Kind     string   `json:"kind"` // violation | undecided | analysis-error
 	Pos      string   `json:"pos"`
 	Func     string   `json:"function,omitempty"`
@@ -51,12 +51,12 @@ type Ctx struct {
 	OutDir   string
 	Findings []*Finding
 	Obls     []*Obligation
-	Obs      []string          // observations (printed in evidence, never counted)
-	Counts   map[string]int    // per-rule instance counts
-	Undec    []string          // undecided clauses (honest remainder)
-	Assume   []string          // assumptions / trusted base
-	Explain  string            // coverage.explanation
-	Extra    map[string]any    // extra coverage keys
+	Obs      []string       // observations (printed in evidence, never counted)
+	Counts   map[string]int // per-rule instance counts
+	Undec    []string       // undecided clauses (honest remainder)
+	Assume   []string       // assumptions / trusted base
+	Explain  string         // coverage.explanation
+	Extra    map[string]any // extra coverage keys
 	known    map[string]*KnownEntry
 	seenKeys map[string]bool
 }
@@ -177,6 +177,18 @@ func (c *Ctx) Finish() int {
 		}
 	}
 	c.writeEvidence(nviol)
+	if kf := os.Getenv("UPF_DUMP_KEYS"); kf != "" {
+		// developer aid: all obligation keys, for checking that keys are stable between runs
+		var ks []string
+		for _, o := range c.Obls {
+			ks = append(ks, fmt.Sprintf("%s ok=%v", o.Key, o.OK))
+		}
+		sort.Strings(ks)
+		if f, err := os.OpenFile(kf, os.O_APPEND|os.O_CREATE|os.O_WRONLY, 0o644); err == nil {
+			fmt.Fprintln(f, strings.Join(ks, "\n"))
+			f.Close()
+		}
+	}
 	nOK := 0
 	for _, o := range c.Obls {
 		if o.OK {
